@@ -643,7 +643,7 @@ def run(ctx):
                 "(stdout-half thread, stderr-half thread, set_forever thread; one or two calls each), ALL line-level "
                 "interleavings of one stdout-half call against one stderr-half call, preemption-bounded otherwise "
                 "(against set_forever: 1 quick / 2 thorough preemptions; three threads or two calls each: 1 / 2, "
-                "capped at 25 (quick) / 100 (thorough) schedules per setup) on real "
+                "capped at 25 (quick) / 60 (thorough) schedules per setup) on real "
                 "PosixPipe/OrPipe "
                 "objects; (2) real Channel + stub transport, seeded random operation sequences run sequentially, "
                 "compared with the model after every operation; (3) real Channel, 2-3 threads, preemption-bounded "
@@ -682,7 +682,7 @@ def run(ctx):
                 mp = 2 if ctx.thorough else 1   # against set_forever (2002 interleavings unbounded)
             else:
                 mp = 2 if ctx.thorough else 1
-            limit = (1500 if simple else 100) if ctx.thorough else (600 if simple else 25)
+            limit = (1500 if simple else 60) if ctx.thorough else (600 if simple else 25)
             complete = check_pipe_setup(ctx, start, calls, mp, limit, cases, stats)
             all_complete = all_complete and complete
         ctx.log("pipe level: %d schedules on the real objects (enumeration complete within bounds: %s)" % (
@@ -713,7 +713,7 @@ def run(ctx):
 
         # ---- 2. channel level, sequential ----------------------------------------------------
         scases = []
-        for j in range(1200 if ctx.thorough else 300):
+        for j in range(1000 if ctx.thorough else 300):
             nops = rng.randrange(1, 9)
             seed = rng.getrandbits(48)
             import random as _random
@@ -745,8 +745,8 @@ def run(ctx):
 
         # ---- 3. channel level, concurrent (oracle) --------------------------------------------
         nrun = 0
-        for pre, progs in chan_setups(rng, 15 if ctx.thorough else 6):
-            gen = explore(lambda: ChanEnv(pre, progs), 2, 150 if ctx.thorough else 60)
+        for pre, progs in chan_setups(rng, 12 if ctx.thorough else 6):
+            gen = explore(lambda: ChanEnv(pre, progs), 2, 120 if ctx.thorough else 60)
             for choices, obs in gen:
                 nrun += 1
                 case = {"pre": pre, "progs": progs, "schedule": choices}
